@@ -2103,7 +2103,13 @@ class Measurement:
             return NotImplemented
 
         measurand = self.measurand * other.measurand
-        uncertainty = self._join_uncertainties(measurand, other)
+        # d(x * y)/dx = y and d(x * y)/dy = x
+        uncertainty = math.sqrt(
+            _add(
+                _pow(_mul(other.measurand.magnitude, self.uncertainty.magnitude), 2),
+                _pow(_mul(self.measurand.magnitude, other.uncertainty.magnitude), 2),
+            )
+        )
         return Measurement(measurand, uncertainty)
 
     __rmul__ = __mul__
@@ -2116,27 +2122,20 @@ class Measurement:
             return NotImplemented
 
         measurand = self.measurand / other.measurand
-        uncertainty = self._join_uncertainties(measurand, other)
-        return Measurement(measurand, uncertainty)
-
-    def _join_uncertainties(self, measurand: Quantity, other: "Measurement") -> float:
-        return math.sqrt(
-            _mul(
-                _pow(measurand.magnitude, 2),
-                (
-                    _add(
-                        _div(
-                            _pow(self.uncertainty.magnitude, 2),
-                            _pow(self.measurand.magnitude, 2),
-                        ),
-                        _div(
-                            _pow(other.uncertainty.magnitude, 2),
-                            _pow(other.measurand.magnitude, 2),
-                        ),
-                    )
+        # d(x / y)/dx = 1 / y and d(x / y)/dy = -x / y**2
+        uncertainty = math.sqrt(
+            _add(
+                _pow(_div(self.uncertainty.magnitude, other.measurand.magnitude), 2),
+                _pow(
+                    _div(
+                        _mul(self.measurand.magnitude, other.uncertainty.magnitude),
+                        _pow(other.measurand.magnitude, 2),
+                    ),
+                    2,
                 ),
             )
         )
+        return Measurement(measurand, uncertainty)
 
     def __rtruediv__(self, other: Union["Measurement", Quantity]) -> "Measurement":
         if isinstance(other, Quantity):
